@@ -5,7 +5,7 @@ cd /repo && git apply "$d/patch.diff" || exit 3
 cd /verif
 for p in "$@"; do
   echo "=== $p against $(basename $d)"
-  VERIF_SEED=${VERIF_SEED:-0} tools/check.py $p ${TIER:-quick} 2>&1 | grep -v '^KNOWN-FINDING' | head -6
+  SSJ_EVIDENCE_DIR=/verif/.cache/evidence-seeded VERIF_SEED=${VERIF_SEED:-0} tools/check.py $p ${TIER:-quick} 2>&1 | grep -v '^KNOWN-FINDING' | head -6
   echo "exit=$?"
 done
 git -C /repo checkout -- .
